@@ -109,7 +109,10 @@ def generate(rng, index, cfg):
         "p_outside": rng.choice([0.0, 0.1, 0.3]),
     }
     world = {"local": _gen_scope_init(rng), "global": _gen_scope_init(rng),
-             "xdg": swarm["xdg"], "custom_attributesfile": swarm["custom_attributesfile"]}
+             "xdg": swarm["xdg"], "custom_attributesfile": swarm["custom_attributesfile"],
+             # how the work tree is attached to its repository: an ordinary .git directory, or a .git *file* (a linked
+             # work tree beside or inside the main one, a repository created with --separate-git-dir)
+             "layout": rng.choice(["plain", "plain", "plain", "linked_sibling", "linked_nested", "separate_git_dir"])}
     ops = []
     for _ in range(rng.randint(1, cfg["max_cmds"])):
         if ops and rng.random() < 0.25:
@@ -176,6 +179,15 @@ class Runner:
     def setup(self):
         w = self.w
         tw = self.trace["world"]
+        layout = tw.get("layout", "plain")
+        self.main_repo = None
+        if layout == "linked_nested":
+            # the main work tree is <root>/work; the work tree the commands run in is kept inside it
+            self.main_repo = w.work
+            w.work = os.path.join(self.main_repo, "trees", "feature")
+            os.makedirs(w.work)
+        elif layout == "linked_sibling":
+            self.main_repo = os.path.join(w.root, "mainrepo")
         if tw["xdg"] == "unset":
             w.env.pop("XDG_CONFIG_HOME", None)
             self.xdg_dir = os.path.join(w.home, ".config")
@@ -198,7 +210,25 @@ class Runner:
         self.outside = os.path.join(w.root, "elsewhere")
         os.makedirs(self.outside)
         nb = '{"cells": [], "metadata": {}, "nbformat": 4, "nbformat_minor": 4}\n'
-        w.git("init", "-q", "-b", "main", ".")
+        self.enclosing_attrs = None
+        if self.main_repo:
+            os.makedirs(self.main_repo, exist_ok=True)
+            w.git("init", "-q", "-b", "trunk", ".", cwd=self.main_repo)
+            self.enclosing_attrs = os.path.join(self.main_repo, ".gitattributes")
+            with open(self.enclosing_attrs, "w") as f:
+                f.write("*.png binary\n*.txt text\n")
+            w.git("add", ".gitattributes", cwd=self.main_repo)
+            w.git("commit", "-q", "-m", "trunk", cwd=self.main_repo)
+            # (the branch starts from trunk; its files are dropped from the index and the tree)
+            w.git("worktree", "add", "-q", "-b", "main", w.work, cwd=self.main_repo)
+            w.git("rm", "-q", "-r", "--", ".", cwd=w.work)
+            os.chdir(w.work)
+        elif layout == "separate_git_dir":
+            w.git("init", "-q", "-b", "main", "--separate-git-dir", os.path.join(w.root, "gitstore"), ".")
+        else:
+            w.git("init", "-q", "-b", "main", ".")
+        self.local_config = os.path.realpath(os.path.join(
+            w.work, w.git("rev-parse", "--git-path", "config").stdout.decode().strip()))
         for n in ("x.ipynb", "y.ipynb"):
             with open(os.path.join(w.work, n), "w") as f:
                 f.write(nb)
@@ -236,7 +266,7 @@ class Runner:
 
     # ---------------- observation
     def _cfg(self, scope):
-        path = os.path.join(self.w.work, ".git", "config") if scope == "local" else os.path.join(self.w.home, ".gitconfig")
+        path = self.local_config if scope == "local" else os.path.join(self.w.home, ".gitconfig")
         try:
             with open(path, "rb") as f:
                 raw = f.read()
@@ -258,6 +288,8 @@ class Runner:
     def observe(self, probes=False):
         o = {"local": self._cfg("local"), "global": self._cfg("global"),
              "local_attrs": self._read(self.local_attrs), "global_attrs": self._read(self.global_attrs)}
+        if self.enclosing_attrs:
+            o["enclosing_attrs"] = self._read(self.enclosing_attrs)
         if probes:
             p = self.w.git("check-attr", "diff", "merge", "--", "x.ipynb", check=False)
             o["check_attr"] = p.stdout.decode()
@@ -292,7 +324,7 @@ class Runner:
         fault = op.get("fault")
         runner = self
         state = {"n": 0, "fired": None}
-        lock_paths = [os.path.join(self.w.work, ".git", "config.lock"), os.path.join(self.w.home, ".gitconfig.lock")]
+        lock_paths = [self.local_config + ".lock", os.path.join(self.w.home, ".gitconfig.lock")]
 
         def popen(argv, *a, **kw):
             n = state["n"]
@@ -425,6 +457,11 @@ class Runner:
 
     def attrs_check(self, op, before, now, sig, where):
         target = "global" if op["global"] else "local"
+        if before.get("enclosing_attrs") != now.get("enclosing_attrs"):
+            self.violate("S4", dict(sig, key="attributes", scope_touched="enclosing"),
+                         "%s: the .gitattributes of another work tree (the main work tree this linked work tree belongs to) "
+                         "changed: %r -> %r" % (where, before.get("enclosing_attrs"), now.get("enclosing_attrs")))
+            return False
         for scope in ("local", "global"):
             b, n = before[scope + "_attrs"], now[scope + "_attrs"]
             if b == n:
@@ -483,7 +520,7 @@ class Runner:
                 if scope == "local" and op.get("outside_repo"):
                     pass
                 for k, v in self.concurrent.items():
-                    if have.get(k) != v and not (scope == "local" and not os.path.isdir(os.path.join(self.w.work, ".git"))):
+                    if have.get(k) != v and not (scope == "local" and not os.path.exists(os.path.join(self.w.work, ".git"))):
                         self.violate("S4", dict(sig, key=k, scope_touched="concurrent"),
                                      "a setting written by another process between two of nbdime's git config steps was lost or "
                                      "reverted: %s=%r in %s scope, now %r" % (k, v, scope, have.get(k)))
